@@ -103,7 +103,7 @@ class ModelEngine(Engine):
             'reads, buffered stream) and compare with the physical truth; rewrite (read then write again under the current epoch: '
             'chains of restarts). Systems: tilted or rotated cells, non-zero origin, 1-30 atoms, 1-4 types, symbols with gaps, '
             'masses absent / present / partly None, int / float / string properties with per-atom shapes (), (3,), (3,3), storage '
-            'units per property including "scaled" and None. Values: shapes (), (1,), (n,), (1,1), (m,n), (a,b,c). Quantities stored '
+            'units per property including "scaled" and None. Units are stated as a dict, as name and unit lists, as a unit list alone, or left to the default; spellings include negative exponents; masses may be exactly zero; format names come in any letter case. Values: shapes (), (1,), (n,), (1,1), (m,n), (a,b,c). Quantities stored '
             'WITHOUT a unit are compared only when the epoch did not change (that is all the statement promises). Non-trivial run: '
             '>= 1 restart between a write and a read of the same artifact, or a short-read stream. distinct = distinct (object kind, '
             'encoding, source kind, epoch-changed, storage-unit pattern, shape class) signatures.')
